@@ -64,6 +64,13 @@ WORKLOADS = {
     "drop_recreate": ("MC_Sched_D", {"d": [{"k": "drop", "kg": "h"}, {"k": "create", "kg": "h"}],
                                      "w": [{"k": "ins", "kg": "h", "rel": "r", "tuples": [t(1)]}]},
                       [{"k": "create", "kg": "h"}, {"k": "ins", "kg": "h", "rel": "r", "tuples": [t(2)]}], CFG, ("C17", "C15")),
+    # two clients in the read path (scheduling points before a snapshot is stored and before a reader
+    # loads it are switched on for this workload only): a client must see its own acknowledged write
+    # whatever another reader is doing
+    "two_readers": ("MC_Sched_RR", {"c1": [{"k": "ins", "kg": "g", "rel": "r", "tuples": [t(3)]},
+                                           {"k": "query", "kg": "g", "rel": "r", "arity": 2}],
+                                    "c2": [{"k": "query", "kg": "g", "rel": "r", "arity": 2}]},
+                    [{"k": "ins", "kg": "g", "rel": "r", "tuples": [t(1)]}], CFG, ("C20",)),
     "reader": ("MC_Sched_Q", {"q": [{"k": "ins", "kg": "g", "rel": "r", "tuples": [t(3)]},
                                     {"k": "query", "kg": "g", "rel": "r", "arity": 2}],
                               "w1": [{"k": "ins", "kg": "g", "rel": "r", "tuples": [t(1), t(2)]}]}, [], CFG, ("C20",)),
@@ -104,7 +111,7 @@ def run(prop, replay=None):
                 # crash images: at the end always; at two random steps in quick, at every step in thorough
                 steps = list(range(len(s))) if tier == "thorough" else rng.sample(range(len(s)), min(2, len(s)))
                 cases.append({"case": len(cases) + 1, "workload": w, "cfg": cfg, "pre": pre, "threads": threads,
-                              "schedule": s, "image_steps": steps})
+                              "schedule": s, "image_steps": steps, "read_points": w == "two_readers"})
     # the controller is process-global: one schedule at a time per process, several processes
     # (a thread blocked on a lock costs the controller's patience, so the runs are mostly idle)
     NP = 1 if replay else 12
